@@ -15,6 +15,8 @@ CONSTANTS
   AllowCrash = FALSE
   FixJournalNoPS = TRUE
   FixModeOnOpen = TRUE
+  AllowHoles = FALSE
+  FixHoles = TRUE
   AllowFreeReuse = FALSE
   AllowFromWal = TRUE
   FixModeSwitch = FALSE
